@@ -90,7 +90,7 @@ func decodeChecks(ctx *core.Ctx, pc *ProgCase, cc *CodecCell, i int, si int, st 
 		return
 	}
 	st.distinct[o.Raw] = true
-	if d := pc.R.Compare(pc.R.Root, pc.WireVals[i], o.Tree); d != nil {
+	if d := pc.R.Compare(pc.R.Root, pc.WireVals[i], o.Tree()); d != nil {
 		k := wire.KObj
 		if d.Field != nil {
 			k = d.Field.Kind
@@ -228,8 +228,8 @@ func C03(ctx *core.Ctx) int {
 			for _, cc := range obs {
 				if o := cc.T.Out[fmt.Sprintf("DEC:%s.s0", m.ID)]; o != nil {
 					if o.Kind == "DEC" {
-						dumps[cc.Lang] = canonTree(pc.R, o.Tree)
-						trees[cc.Lang] = o.Tree
+						dumps[cc.Lang] = canonTree(pc.R, o.Tree())
+						trees[cc.Lang] = o.Tree()
 					} else if o.ErrKind != "unsupported" {
 						dumps[cc.Lang] = "ERR"
 					}
@@ -303,7 +303,7 @@ func C03(ctx *core.Ctx) int {
 				if o := c2.Out[fmt.Sprintf("DEC:x%d", k)]; o != nil {
 					crossRuns++
 					if o.Kind == "DEC" {
-						res[l] = canonTree(x.pc.R, o.Tree)
+						res[l] = canonTree(x.pc.R, o.Tree())
 					} else {
 						res[l] = "ERR"
 					}
@@ -609,10 +609,10 @@ func unmappedChecks(ctx *core.Ctx, cases []*ProgCase, langs []string, st *codecS
 				rep := map[string]any{"name": pc.Prog.Name, "lang": l, "text": pc.Text, "bytes": pc.UnmappedHex[k]}
 				if o.Kind == "DEC" {
 					what := "the payload is skipped"
-					if o.Tree != nil {
-						for i, n := range o.Tree.Names {
+					if o.Tree() != nil {
+						for i, n := range o.Tree().Names {
 							_ = n
-							if f := o.Tree.Fields[i]; f != nil && f.Kind == 'P' {
+							if f := o.Tree().Fields[i]; f != nil && f.Kind == 'P' {
 								what = "another packet is selected"
 							}
 						}
